@@ -390,6 +390,47 @@ func init() {
 		return r
 	})
 
+	// ----- crypto/sha256 as an injective stub: the "digest" is the written data itself (collision freedom assumed) -----
+	reg("(*crypto/sha256.digest).Write", func(e *Exec, c *frame, fn *ssa.Function, a []Value) Value {
+		p := a[0].(*Value)
+		data := a[1].(Slice)
+		old := e.hashBuf[p]
+		nb := append(append([]Value(nil), old...), data...)
+		e.hashBuf[p] = nb
+		e.journalUndo(func() { e.hashBuf[p] = old })
+		e.intrHit["sha256-injective-stub"]++
+		return Tuple{mkInt(int64(len(data))), Iface{}}
+	})
+	reg("(*crypto/sha256.digest).Sum", func(e *Exec, c *frame, fn *ssa.Function, a []Value) Value {
+		p := a[0].(*Value)
+		in := a[1].(Slice)
+		out := make(Slice, 0, len(in)+len(e.hashBuf[p])+1)
+		out = append(out, in...)
+		out = append(out, e.hashBuf[p]...)
+		out = append(out, Sc{C: 0xff}) // terminator keeps the encoding injective w.r.t. concatenation
+		return out
+	})
+
+	// ----- context -----
+	reg("context.WithValue", func(e *Exec, c *frame, fn *ssa.Function, a []Value) Value {
+		parent := a[0].(Iface)
+		if parent.t == nil {
+			panic(targetPanic{Iface{t: e.P.rtErrT, v: Str{s: "cannot create context from nil parent"}}})
+		}
+		key := a[1].(Iface)
+		if key.t == nil {
+			panic(targetPanic{Iface{t: e.P.rtErrT, v: Str{s: "nil key"}}})
+		}
+		if !types.Comparable(key.t) {
+			panic(targetPanic{Iface{t: e.P.rtErrT, v: Str{s: "key is not comparable"}}})
+		}
+		pkg := e.P.prog.ImportedPackage("context")
+		vt := pkg.Type("valueCtx").Object().Type()
+		cell := new(Value)
+		*cell = Struct{parent, key, a[2]}
+		return Iface{t: types.NewPointer(vt), v: cell}
+	})
+
 	// ----- errors -----
 	reg("errors.Is", func(e *Exec, c *frame, fn *ssa.Function, a []Value) Value {
 		return mkBool(e.errorsIs(a[0].(Iface), a[1].(Iface)))
